@@ -35,10 +35,12 @@ EXCLUDE = {
 BLOCKS = collections.OrderedDict()
 
 
-def block(name, lang, src, protos=(), call=None, needs=()):
+def block(name, lang, src, protos=(), call=None, needs=(), order="chain", lean=False):
+    """order: "chain" = the chunks of the block keep their order; "last" = only the last chunk must follow the others
+    (overloads defined without prototypes, their user last).  lean: the file gets no global-array definition."""
     chunks = [c.strip("\n").split("\n") for c in src.strip("\n").split("\n//--\n")]
     BLOCKS[name] = {"name": name, "lang": lang, "chunks": chunks, "protos": list(protos), "call": call,
-                    "needs": set(needs)}
+                    "needs": set(needs), "order": order, "lean": lean}
 
 
 block("oob", "c", """
@@ -339,22 +341,66 @@ int use_virt(void)
 }
 """, ["int use_virt(void);"], "sum += use_virt();")
 
+# ---- C++ overload sets: 2-3 overloads of one name, DEFINED without prototypes, one call per program ------------
+OVL_BODY = {
+    "int": ("int dv", ["    return 100 / dv;"]),
+    "long": ("long dv", ["    return 1000 / dv;"]),
+    "double": ("double dv", ["    int ar[2] = {0, 0};", "    return ar[(int)dv + 2];"]),
+    "charp": ("char *dv", ["    return *dv;"]),
+}
+OVL_ARGS = collections.OrderedDict([("char", "char av = 0;"), ("short", "short av = 0;"), ("int", "int av = 0;"),
+                                    ("long", "long av = 0;"), ("float", "float av = 0;"), ("lit0", None)])
+
+
+def _ovl_rank(arg, par):
+    """C++ implicit conversion rank of argument type -> parameter type: 0 exact, 1 promotion, 2 conversion, None"""
+    if (arg, par) in (("int", "int"), ("long", "long"), ("lit0", "int")):
+        return 0
+    if (arg, par) in (("char", "int"), ("short", "int"), ("float", "double")):
+        return 1
+    if par == "charp":
+        return 2 if arg == "lit0" else None
+    return 2
+
+
+def ovl_call_is_unambiguous(arg, pars):
+    r = [x for x in (_ovl_rank(arg, p) for p in pars) if x is not None]
+    return bool(r) and r.count(min(r)) == 1
+
+
+for _n in (2, 3):
+    for _pars in itertools.combinations(list(OVL_BODY), _n):
+        for _arg, _decl in OVL_ARGS.items():
+            if not ovl_call_is_unambiguous(_arg, _pars):
+                continue        # ill-formed for a C++ compiler: no instance of the quantifier
+            _src = []
+            for _p in _pars:
+                _src.append("\n".join(["int scale(%s)" % OVL_BODY[_p][0], "{"] + OVL_BODY[_p][1] + ["}"]))
+            _use = ["int use_scale(void)", "{"] + (["    " + _decl, "    return scale(av);"] if _decl else
+                                                     ["    return scale(0);"]) + ["}"]
+            _src.append("\n".join(_use))
+            block("ovl_%s_%s" % ("".join(x[0] for x in _pars), _arg), "cpp", "\n//--\n".join(_src),
+                  ["int use_scale(void);"], "sum += use_scale();", order="last", lean=True)
+
 CBLOCKS = [b for b in BLOCKS.values() if b["lang"] == "c"]
 XBLOCKS = [b for b in BLOCKS.values() if b["lang"] == "cpp"]
 
 
 def make_program(blocks, lang, name):
-    """-> rwm.Prog with generator-side structure (chunks, constraints)."""
+    """-> rwm.Prog with generator-side structure (chunks with their group, order constraints per group)."""
     needs = set()
     for b in blocks:
         needs |= b["needs"]
-    lines, chunks, after = [], [], []
+    lines, chunks, after = [], [], {"D": [], "P": []}
+    count = {"D": 0, "P": 0}
 
-    def add(ls, permutable):
+    def add(ls, group):
         a = len(lines) + 1
         lines.extend(ls)
-        chunks.append((a, len(lines), permutable))
-        return len([c for c in chunks if c[2]]) - 1
+        chunks.append((a, len(lines), group))
+        if group:
+            count[group] += 1
+            return count[group] - 1
 
     lines.append("/* generated corpus file */")
     for n, inc in (("stdlib", "#include <stdlib.h>"), ("string", "#include <string.h>"),
@@ -362,34 +408,39 @@ def make_program(blocks, lang, name):
         if n in needs:
             lines.append(inc)
     lines.append("")
-    add(["struct Pair {", "    int head;", "    int spare;", "};"], False)
-    add(["typedef struct Pair pair_t;"], False)
-    add(["extern int g_tab[3];"], False)
+    lean = all(b["lean"] for b in blocks)
+    add(["struct Pair {", "    int head;", "    int spare;", "};"], None)
+    add(["typedef struct Pair pair_t;"], None)
+    # the block of forward declarations: every order of it keeps each use after a declaration
+    if not lean:
+        add(["extern int g_tab[3];"], "P")
     for b in blocks:
         for pr in b["protos"]:
-            add([pr], False)
-    add(["int call_all(void);"], False)
+            add([pr], "P")
+    add(["int call_all(void);"], "P")
     lines.append("")
     first = True
     for b in blocks:
-        prev = None
+        ks = []
         for ch in b["chunks"]:
             if not first:
                 lines.append("")
             first = False
-            k = add(ch, True)
-            if prev is not None:
-                after.append((prev, k))
-            prev = k
-    lines.append("")
-    add(["int g_tab[3];"], True)
+            ks.append(add(ch, "D"))
+        if b["order"] == "chain":
+            after["D"] += list(zip(ks, ks[1:]))
+        else:
+            after["D"] += [(k, ks[-1]) for k in ks[:-1]]
+    if not lean:
+        lines.append("")
+        add(["int g_tab[3];"], "D")
     lines.append("")
     body = ["int call_all(void)", "{", "    int sum = 0;", "    // calls"]
     for b in blocks:
         if b["call"]:
             body.append("    " + b["call"])
     body += ["    return sum;", "}"]
-    add(body, True)
+    add(body, "D")
     text = "\n".join(lines) + "\n"
     return rwm.Prog(text, lang, name, chunks=chunks, after=after)
 
@@ -402,8 +453,8 @@ def corpus_generated(tier):
     for k in range(1, kmax + 1):
         for combo in itertools.combinations(allb, k):
             langs = ["cpp"] if any(b["lang"] == "cpp" for b in combo) else ["c", "cpp"]
-            nperm = sum(len(b["chunks"]) for b in combo) + 2
-            if nperm > 5:
+            nperm = sum(len(b["chunks"]) for b in combo) + (1 if all(b["lean"] for b in combo) else 2)
+            if nperm > 5 or (k > 1 and any(b["lean"] for b in combo)):
                 continue
             if k >= 2 and tier == "quick":
                 sidx = sum(allb.index(b) for b in combo)
@@ -533,7 +584,10 @@ def compare(pf, qf, al):
 
 
 def rw_class(rw):
-    return rw.name.split("@")[0] if rw.fam in ("W", "B", "R") else "perm"
+    if rw.fam in ("W", "B", "R"):
+        return rw.name.split("@")[0]
+    return {"perm-D": "perm-definitions", "perm-P": "perm-forward-declarations",
+            "perm-DP": "perm-both"}.get(rw.name[:7].rstrip("-"), "perm")
 
 
 
@@ -591,7 +645,7 @@ def prog_from_spec(spec):
 
 def specs(tier):
     out = []
-    for f in sorted(glob.glob("/repo/samples/*/bad.c*") + glob.glob("/repo/samples/*/good.c*")):
+    for f in sorted(glob.glob(build.REPO + "/samples/*/bad.c*") + glob.glob(build.REPO + "/samples/*/good.c*")):
         lang = "cpp" if f.endswith(".cpp") else "c"
         out.append(("s", f, lang, "s_" + f.split("/")[-2] + "_" + os.path.basename(f)))
     out += [("g", [b["name"] for b in combo], lang, name) for combo, lang, name in corpus_generated(tier)]
